@@ -88,6 +88,7 @@ type MintSpec struct {
 	ForeignKey   bool           `json:"foreign_key,omitempty"`
 	FromScratch  bool           `json:"from_scratch,omitempty"`
 	AuthCipher   bool           `json:"auth_cipher,omitempty"` // seal under the authenticator's cookie secret instead
+	AuthCookie   bool           `json:"auth_cookie,omitempty"` // derive from and replace the authenticator's own session cookie
 }
 
 // Violation is one failed assertion.
